@@ -19,7 +19,8 @@ RULE = (
 )
 REQUIRED = ["canon_faithful_checked", "invariance_variants_checked", "automorphism_count_checked",
             "orbits_checked", "refine_postcondition_evals", "refine_multi_round", "crn_automorphism_checked",
-            "separation_pairs_checked", "nontrivial_automorphism_groups", "views/bipartite", "views/species", "view_options_checked"]
+            "separation_pairs_checked", "nontrivial_automorphism_groups", "views/bipartite", "views/species", "view_options_checked",
+            "edit_history_checked", "edit_history/replace", "edit_history/remove_species_keep"]
 ASSUMPTIONS = [
     "canonical graphs compared after projection on the selected node/edge attribute keys (unselected attributes such as labels, via sets legitimately differ)",
     "CRNAutomorphism compared on node keys only (its documented contract)",
@@ -222,6 +223,82 @@ def check_case(ctx, net, cfg, tag, seen, perms=None):
              if (ctx.evaluations < 2 or ctx.rng.random() < 0.002) else None)
 
 
+def _same_view(G, want):
+    return set(G.nodes) == set(want.nodes) and set(G.edges) == set(want.edges) and \
+        all(G.nodes[n] == want.nodes[n] for n in G.nodes) and all(G.edges[e] == want.edges[e] for e in G.edges)
+
+
+def check_edit_history(ctx, net, cfg):
+    """a network object is analysed, edited in place through the public editing calls, and analysed again: the second
+    analysis has to be about the network as it is now (same answers as for an independent copy of it)."""
+    from synkit.CRN.Topo.canon import CRNCanonicalizer
+    from synkit.CRN.Topo.automorphism import CRNAutomorphism
+    from synkit.CRN.Hypergraph.conversion import hypergraph_to_bipartite, hypergraph_to_species_graph
+
+    rng = ctx.rng
+    inc_rule, inc_st, nk, ek = cfg
+    H = W.build_hg(net)
+
+    def analyse(h):
+        cz = CRNCanonicalizer(h, include_rule=inc_rule, include_stoich=inc_st, node_attr_keys=nk, edge_attr_keys=ek)
+        sm = cz.summary()
+        ca = CRNAutomorphism(h, include_rule=inc_rule, include_stoich=inc_st, node_attr_keys=nk)
+        return cz, sm, ca.summary(max_count=10**6, timeout_sec=None)
+
+    analyse(H)
+    sp = W.species_of(net)
+    rx = None
+    edits = []
+    for step in range(rng.randint(1, 3)):
+        eids = sorted(H.edges)
+        kind = rng.choice(["replace", "replace", "remove_species_keep", "remove_rxn", "add_rxn", "remove_species"])
+        try:
+            if kind == "replace" and eids:
+                e = rng.choice(eids)
+                old = H.get_edge(e)
+                # same species, other coefficients / sides swapped: species count and reaction ids stay as they were
+                a = {k: rng.randint(1, 3) for k in old.reactants.keys()}
+                b = {k: rng.randint(1, 3) for k in old.products.keys()}
+                if rng.random() < 0.4:
+                    a, b = b, a
+                if not a and not b:
+                    continue
+                rule = old.rule
+                H.remove_rxn(e)
+                H.add_rxn(a, b, rule=rule, edge_id=e)
+            elif kind == "remove_species_keep" and len(H.species) > 1:
+                H.remove_species(rng.choice(sorted(H.species)), prune_orphans=False)
+            elif kind == "remove_species" and len(H.species) > 1:
+                H.remove_species(rng.choice(sorted(H.species)))
+            elif kind == "remove_rxn" and len(eids) > 1:
+                H.remove_rxn(rng.choice(eids))
+            elif kind == "add_rxn":
+                a = {s_: rng.randint(1, 2) for s_ in rng.sample(sp, rng.randint(1, min(2, len(sp))))}
+                b = {s_: rng.randint(1, 2) for s_ in rng.sample(sp, rng.randint(0, min(2, len(sp))))}
+                H.add_rxn(a, b, rule="r")
+            else:
+                continue
+        except (KeyError, ValueError):
+            continue
+        edits.append(kind)
+        if not H.edges:
+            return
+        wit = {"net": net, "reactions": W.fmt_net(net), "cfg": cfg, "edits": list(edits)}
+        cz, sm, cs = analyse(H)
+        ctx.count("edit_history_checked")
+        ctx.count("edit_history/" + kind)
+        want_view = (hypergraph_to_bipartite(H, integer_ids=False, include_stoich=inc_st, species_prefix=None, reaction_prefix=None)
+                     if inc_rule else hypergraph_to_species_graph(H))
+        if not _same_view(cz.G, want_view):
+            ctx.violation("stale-view-after-edit", wit, f"after in-place edits {edits} a new canonicaliser works on a view that is not the view of the network as it is now")
+            return
+        cz2, sm2, cs2 = analyse(H.copy())
+        if project(sm["canon_graph"], nk, ek) != project(sm2["canon_graph"], nk, ek) or sm["automorphism_count"] != sm2["automorphism_count"] \
+                or cs["automorphism_count"] != cs2["automorphism_count"]:
+            ctx.violation("edited-network-differs-from-copy", wit, f"after in-place edits {edits} the analysis differs from the analysis of an independent copy of the same network")
+            return
+
+
 def is_auto(G, m, node_ok, edge_ok):
     if sorted(map(repr, m.keys())) != sorted(map(repr, G.nodes)) or sorted(map(repr, m.values())) != sorted(map(repr, G.nodes)):
         return False
@@ -279,6 +356,7 @@ def run(ctx):
                                rules=["r", "k"][: rng.randint(1, 2)])
         for cfg in CONFIGS:
             check_case(ctx, net, cfg, "random", seen)
+            check_edit_history(ctx, net, cfg)
         ctx.count("random_networks")
     ctx.count("refine_postcondition_evals", _refine_stats["evals"])
     ctx.count("refine_multi_round", _refine_stats["multi"])
